@@ -38,6 +38,7 @@ import (
 	"io"
 	"os"
 	"path/filepath"
+	"runtime"
 	"runtime/debug"
 	"sort"
 	"strconv"
@@ -420,10 +421,58 @@ type c14anRun struct {
 const c14anStall = 20 // seconds without a single record judged
 
 // guarded runs evalTaxonomy in its own goroutine and watches its progress; returns true when it hung
+// c14anGoID: number of the calling goroutine (first line of its stack: "goroutine 17 [running]:").
+func c14anGoID() string {
+	b := make([]byte, 64)
+	f := strings.Fields(string(b[:runtime.Stack(b, false)]))
+	if len(f) > 1 {
+		return f[1]
+	}
+	return "?"
+}
+
+// c14anNet: in the goroutine that evaluates a taxonomy (where every implementation call of the harness is made,
+// under its guards) a log.Fatal* becomes the panic c14anFatal and a log.Panic* is a panic already. Raised in a
+// goroutine the implementation started (the workers of the annotation pipeline) neither can be caught by any guard
+// and the process ends: the tree under test does that, not the harness. It is recorded as a violation, the shard
+// writes what it has found and stops there.
+type c14anNet struct {
+	r   *verifkit.Result
+	cur *atomic.Value // goroutine of the evaluation in progress (string)
+	h   *c14anRun
+}
+
+func (n c14anNet) Levels() []log.Level { return []log.Level{log.PanicLevel} }
+
+func (n c14anNet) Fire(e *log.Entry) error {
+	n.end("log.Panic", e.Message)
+	return nil
+}
+
+func (n c14anNet) end(what, msg string) {
+	if g, _ := n.cur.Load().(string); g == c14anGoID() {
+		return
+	}
+	stack := make([]byte, 3000)
+	stack = stack[:runtime.Stack(stack, false)]
+	var c any
+	cmd := ""
+	if p := n.h.cur.Load(); p != nil {
+		c, cmd = *p, "obiannotate "+strings.Join(p.args("DIR"), " ")+": "
+	}
+	n.r.Violate("obiannotate.CLIAnnotationPipeline/"+what+"-in-a-goroutine-of-the-pipeline", fmt.Sprintf("%s%s %q in a goroutine started by the implementation; the shard stops here\n%s", cmd, what, msg, stack), c)
+	n.r.Cap("a log.Fatal / log.Panic in a goroutine of the implementation ended a shard: its remaining cases were not run")
+	n.r.Write()
+	os.Exit(0)
+}
+
+var c14anEvalGo atomic.Value
+
 func (h *c14anRun) guarded(scheme int, parent []int, ranks []string, only *c14anCase) bool {
 	done := make(chan struct{})
 	go func() {
 		defer close(done)
+		c14anEvalGo.Store(c14anGoID())
 		h.evalTaxonomy(scheme, parent, ranks, only)
 	}()
 	tick := time.NewTicker(time.Second)
@@ -705,14 +754,27 @@ func (h *c14anRun) evalTaxonomy(scheme int, parent []int, ranks []string, only *
 		h.curSite.Store(&siteWorker)
 		h.progress.Add(1)
 		args := c.args(h.dir)
-		if err := c14anParse(args); err != nil {
-			r.Violate("obiannotate.OptionSet/parse-error", fmt.Sprintf("%v: %v", args, err), c)
+		// the command's OptionSet and option getters are code of the tree under test: called under the guard
+		var perr error
+		lost := ""
+		if !guard("obiannotate.OptionSet", c, func() {
+			if perr = c14anParse(args); perr != nil {
+				return
+			}
+			if len(CLITaxonAtRank()) != len(c.AtRank) || CLISetTaxonomicPath() != c.Path || CLISetTaxonomicRank() != c.Rank ||
+				CLISetScientificName() != c.SciName || CLILCASlotName() != c.LCASlot {
+				lost = fmt.Sprintf("%v parsed as at-rank=%v path=%v rank=%v sciname=%v lca=%q",
+					args, CLITaxonAtRank(), CLISetTaxonomicPath(), CLISetTaxonomicRank(), CLISetScientificName(), CLILCASlotName())
+			}
+		}) {
 			continue
 		}
-		if len(CLITaxonAtRank()) != len(c.AtRank) || CLISetTaxonomicPath() != c.Path || CLISetTaxonomicRank() != c.Rank ||
-			CLISetScientificName() != c.SciName || CLILCASlotName() != c.LCASlot {
-			r.Violate("obiannotate.OptionSet/options-lost", fmt.Sprintf("%v parsed as at-rank=%v path=%v rank=%v sciname=%v lca=%q",
-				args, CLITaxonAtRank(), CLISetTaxonomicPath(), CLISetTaxonomicRank(), CLISetScientificName(), CLILCASlotName()), c)
+		if perr != nil {
+			r.Violate("obiannotate.OptionSet/parse-error", fmt.Sprintf("%v: %v", args, perr), c)
+			continue
+		}
+		if lost != "" {
+			r.Violate("obiannotate.OptionSet/options-lost", lost, c)
 			continue
 		}
 		onlyRanks := !c.Path && !c.Rank && !c.SciName && c.LCASlot == ""
@@ -799,7 +861,6 @@ func (h *c14anRun) evalTaxonomy(scheme int, parent []int, ranks []string, only *
 
 func TestVerifC14Annotate(t *testing.T) {
 	log.SetOutput(io.Discard)
-	log.StandardLogger().ExitFunc = func(int) { panic(c14anFatal{}) }
 	r := verifkit.New("C14")
 	defer r.Write()
 	debug.SetGCPercent(1600) // millions of short-lived records on a live heap of a few MiB: collect less often
@@ -817,6 +878,9 @@ func TestVerifC14Annotate(t *testing.T) {
 	}
 	defer os.RemoveAll(dir)
 	h := &c14anRun{r: r, dir: dir}
+	net := c14anNet{r, &c14anEvalGo, h}
+	log.AddHook(net)
+	log.StandardLogger().ExitFunc = func(int) { net.end("log.Fatal", ""); panic(c14anFatal{}) }
 
 	if rc := r.ReplayCase(); rc != nil {
 		var c c14anCase
